@@ -166,9 +166,15 @@ def norm_slice(start, stop, n):
     if cb is not None and cb == 0:
       return 0
     if cb is not None and cb < 0:
+      if sym.prove(n + cb >= 0):
+        return n + cb
       return sym.smax(n + cb, 0)
+    if sym.prove(sym.sand(b >= 0, b <= n)):
+      return b
     if cb is not None:
       return sym.smin(cb, n)
+    if sym.prove(sym.sand(b >= 0, b >= n)):
+      return n
     return sym.ite(b < 0, sym.smax(n + b, 0), sym.smin(b, n))
 
   lo = clamp(start, 0)
